@@ -107,6 +107,77 @@ Theorem decode_fast_eq : forall bs, decode_fast bs = decode bs.
 Proof. intro bs. unfold decode_fast, decode. rewrite dec_fast_eq. reflexivity. Qed.
 
 (* ---------------------------------------------------------------------- *)
+(*  The decoder fails only where bincode fails                             *)
+(* ---------------------------------------------------------------------- *)
+
+Lemma blob_total y : wt (TSeq (TInt 1)) y = true -> exists r, blob_of_val y = Some r.
+Proof. destruct y; try discriminate. exact (int_seq_total 1 l). Qed.
+
+Lemma octets_total k y : wt (TArr k (TInt 1)) y = true -> exists r, octets_of_val y = Some r.
+Proof. destruct y; try discriminate. exact (int_arr_total k 1 l). Qed.
+
+Lemma ip_total y : wt (TEnum [TArr 4 (TInt 1); TArr 16 (TInt 1)]) y = true -> exists ip, ip_of_val y = Some ip.
+Proof.
+  intro H. apply wt_enum_inv in H. destruct H as (idx & p & -> & H).
+  apply wt_variant_inv in H. destruct H as (t & Nt & Wt).
+  pose proof (nth_ty_lt _ _ _ Nt) as L. norm_len L.
+  assert (idx = 0 \/ idx = 1) as [-> | ->] by lia; cbn in Nt; injection Nt as <-;
+    destruct (octets_total _ _ Wt) as [o E]; cbn [ip_of_val]; rewrite E; eauto.
+Qed.
+
+Lemma params_total y : wt sync_params_ty y = true -> exists m, params_of_val y = Some m.
+Proof.
+  unfold sync_params_ty. intro H. apply wt_enum_inv in H. destruct H as (idx & p & -> & H).
+  apply wt_variant_inv in H. destruct H as (t & Nt & Wt).
+  pose proof (nth_ty_lt _ _ _ Nt) as L. norm_len L. assert (idx = 0) by lia. subst idx.
+  cbn in Nt. injection Nt as <-. cbv [sync_params_fields map snd] in Wt.
+  apply wt_tuple_inv in Wt. destruct Wt as (vs & -> & Wt).
+  apply wt_fields_cons_inv in Wt. destruct Wt as (ipv & vs' & -> & Wip & Wt).
+  inv_wt. destruct (ip_total _ Wip) as [ip E].
+  cbv [params_of_val sync_params_fields map fst combine assoc sfield_eqb sfield_idx N.eqb Pos.eqb sint].
+  rewrite E. eauto.
+Qed.
+
+Lemma val_to_msg_total v : wt message_ty v = true -> exists m, val_to_msg v = Some m.
+Proof.
+  unfold message_ty. intro H. apply wt_enum_inv in H. destruct H as (idx & p & -> & H).
+  apply wt_variant_inv in H. destruct H as (t & Nt & Wt).
+  pose proof (nth_ty_lt _ _ _ Nt) as L. norm_len L.
+  assert (idx = 0 \/ idx = 1 \/ idx = 2 \/ idx = 3 \/ idx = 4 \/ idx = 5 \/ idx = 6 \/ idx = 7
+          \/ idx = 8 \/ idx = 9 \/ idx = 10 \/ idx = 11) as C by lia.
+  repeat (destruct C as [->|C]); try subst idx;
+    vm_compute in Nt; injection Nt as <-.
+  all: try (inv_wt; crunch; eauto; fail).
+  - (* ComponentUpdated *)
+    apply wt_tuple_inv in Wt. destruct Wt as (vs & -> & Wt).
+    apply wt_fields_cons_inv in Wt. destruct Wt as (a & vs1 & -> & Wa & Wt).
+    apply wt_fields_cons_inv in Wt. destruct Wt as (b & vs2 & -> & Wb & Wt).
+    apply wt_fields_cons_inv in Wt. destruct Wt as (c & vs3 & -> & Wc & Wt).
+    inv_wt. destruct (blob_total _ Wc) as [d E].
+    cbv [val_to_msg nth_variant message_variants N.eqb N.pred Pos.pred_N Pos.pred_double build_msg pbytes pblob
+         assoc pfield_eqb pfield_idx Pos.eqb map fst combine obind]. rewrite E. eauto.
+  - (* StandardMaterialUpdated *)
+    apply wt_tuple_inv in Wt. destruct Wt as (vs & -> & Wt).
+    apply wt_fields_cons_inv in Wt. destruct Wt as (a & vs1 & -> & Wa & Wt).
+    apply wt_fields_cons_inv in Wt. destruct Wt as (c & vs3 & -> & Wc & Wt).
+    inv_wt. destruct (blob_total _ Wc) as [d E].
+    cbv [val_to_msg nth_variant message_variants N.eqb N.pred Pos.pred_N Pos.pred_double build_msg pbytes pblob
+         assoc pfield_eqb pfield_idx Pos.eqb map fst combine obind]. rewrite E. eauto.
+  - (* NewHost *)
+    apply wt_tuple_inv in Wt. destruct Wt as (vs & -> & Wt).
+    apply wt_fields_cons_inv in Wt. destruct Wt as (a & vs1 & -> & Wa & Wt).
+    inv_wt. destruct (params_total _ Wa) as [m E].
+    cbv [val_to_msg nth_variant message_variants N.eqb N.pred Pos.pred_N Pos.pred_double build_msg
+         assoc pfield_eqb pfield_idx Pos.eqb map fst combine obind]. rewrite E. eauto.
+Qed.
+
+Theorem decode_none_only_if_bincode_fails : forall bs, decode bs = None -> dec message_ty bs = None.
+Proof.
+  intros bs H. unfold decode in H. destruct (dec message_ty bs) as [[v r]|] eqn:D; [|reflexivity].
+  destruct (val_to_msg_total v (dec_wt _ _ _ _ D)) as [m E]. rewrite E in H. discriminate.
+Qed.
+
+(* ---------------------------------------------------------------------- *)
 (*  C12, components and materials: the reflect envelope                    *)
 (*                                                                         *)
 (*  For EVERY wire schema [t] (any nesting of structs, tuple structs,      *)
